@@ -877,6 +877,11 @@ def run_peer_change(ctx, op):
             return
         base = os.path.basename(f['path'])
         test = 'test_' + ''.join(c if c.isalnum() else '_' for c in base)
+        if sum(1 for g in files if os.path.basename(g['path']) == base) > 1:
+            # colliding basenames: test names get a numeric qualifier whose
+            # assignment order is not part of the statement
+            ctx.stats['abstain']['ambiguous_test_name_for_file'] += 1
+            return
         if k == 'file_missing':
             prog['effects'].remove(f)
             ch.update(applied='yes', test=test,
